@@ -44,7 +44,7 @@ def _hist(rng, tier):
         r = rng.random()
         if r < p_enc:
             x = rng.choice(WHO) if rng.random() < 0.8 else "A"
-            k = 1 if rng.random() < 0.85 else rng.randrange(2, c + 3)     # bursts run into the limits
+            k = 1 if rng.random() < 0.93 else rng.randrange(2, c + 3)     # bursts run into the limits
             for _ in range(k):
                 ops.append(f"enc {x}")
                 sent[x].append(nid)
@@ -106,6 +106,8 @@ CORPUS = [
     # desynchronisation after a rotate-back: B moves on to generation 2 while A sits on generation 0
     ["config 10 4 3"] + _enc("B", 9) + ["deliver A 8 0 9000", "enc A", "deliver B 9 0 9000", "timeout B 9000", "deliver A 0 5 9500", "timeout A 9500"]
     + _enc("B", 9) + ["deliver A 18 0 20000", "deliver A 17 0 20000", "deliver A 18 0 20000", "deliver A 18 0 20000", "deliver A 18 0 20000"],
+    # the production key-update window (Limits::default()): 12 packets below the window edge, silent peer
+    ["config 10012 3 default"] + _enc("A", 10016) + ["timeout A 5", "enc A"],
     # malformed
     ["enc A", "config 10 3 3", "config 10 3 3", "deliver A 0 0 1", "enc C", "deliver A x 0 1", "forge A 2 0 0 1", "timeout A 0", "bogus", "enc A", "deliver A 0 0 1", "deliver B 0 0 0"],
 ]
@@ -115,7 +117,8 @@ def gen(rng, n, tier):
     ops = []
     for h in CORPUS:
         ops += h + ["reset"]
-    while len(ops) < n:
+    m = len(ops) + n          # n random ops on top of the directed histories
+    while len(ops) < m:
         ops += _hist(rng, tier) + ["reset"]
     return ops
 
@@ -156,7 +159,7 @@ def oracle(ops, outs):
         if out == "bad-op" or not o:
             continue
         if t[0] == "config":
-            cfg = tuple(int(v) for v in t[1:4])
+            cfg = (int(t[1]), int(t[2]), t[3])
             st = _state(o[1:])
             continue
         if cfg is None:
@@ -217,7 +220,15 @@ def oracle(ops, outs):
             bad.append((idx, "keyset:generations-diverged",
                         f"after {op}: A's active key is generation {new['A']['g']}, B's is generation {new['B']['g']}"))
         st = new
-    return bad
+    # first occurrence of every signature first (the driver only registers the first few failures)
+    seen, first, rest = set(), [], []
+    for b in bad:
+        if b[1] in seen:
+            rest.append(b)
+        else:
+            seen.add(b[1])
+            first.append(b)
+    return first + rest
 
 
 def nontrivial(op, out):
